@@ -351,7 +351,7 @@ class ExprMixin:
                 r = a == b                        # enum members (modelled as their ordinal)
             elif isinstance(a, (PyObj, PyConst)) or isinstance(b, (PyObj, PyConst)):
                 r = eq(a, b)
-            elif isinstance(a, PyAbsList) and isinstance(b, PyAbsList):
+            elif isinstance(a, (PyAbsList, PyComp)) and isinstance(b, (PyAbsList, PyComp)):
                 r = z3.BoolVal(a is b)          # within one state: the same list object
             else:
                 raise Unsupported("`is` on values")
